@@ -29,6 +29,7 @@ type recv struct {
 type sub struct {
 	id         int
 	mode       int // 0 prompt, 1 slow, 2 stalled until resume
+	dead       bool // stalled, cancelled, and never read again
 	willCancel bool
 	cancelAt   time.Duration
 	joinAt     time.Duration
@@ -118,6 +119,7 @@ func body(s *simrt.Sim, tier string) {
 
 	b := batcher.New[string, int](interval)
 	var resume, stopReaders atomic.Bool
+	deadAfterCancel := s.Choose(2, "deadAfterCancel") == 0
 	var closeReturn, closeInvoke atomic.Uint64
 
 	var subNames, workNames []string
@@ -142,6 +144,12 @@ func body(s *simrt.Sim, tier string) {
 			sb.subReturn = s.Stamp()
 			if sb.mode == 2 {
 				s.WaitUntil("stalled", 0, func() bool { return resume.Load() })
+				if sb.willCancel && deadAfterCancel {
+					// a stalled subscriber whose context ended has left for good: it never reads again,
+					// and nothing may be waiting for it
+					sb.dead = true
+					return
+				}
 			}
 			for {
 				var v int
@@ -355,6 +363,14 @@ func body(s *simrt.Sim, tier string) {
 		return
 	}
 	for _, sb := range subs {
+		if sb.dead {
+			// nobody reads this channel any more: after Close it is closed all the same
+			select {
+			case _, open := <-sb.ch:
+				sb.closedSeen = !open
+			default:
+			}
+		}
 		if sb.subReturn != 0 && sb.subReturn < closeInvoke.Load() && !sb.closedSeen {
 			s.Fail("channel-not-closed", fmt.Sprintf("subscriber %d was accepted before Close was called but its channel was not closed", sb.id))
 		}
